@@ -12,7 +12,8 @@ Inductive case :=
         (as_panic : bool) (depth labels : Z) (followup : bool)
 | StackCase (limit d cls reached depth : Z) (repeat_same : bool)
 (* nested calls some of which are built-in (native) frames: every frame, script or native, counts against the limit.
-   shape 1: d-1 script frames and a native call innermost; shape 2: f, then d times (Array.prototype.map, callback g, f).
+   shape 1: d-1 script frames and a native call innermost; shape 2: f, then d times (Array.prototype.map, callback g, f);
+   shape 3: recursion through indirect eval; shape 4: recursion through a host function that re-enters Run.
    reached = script frames entered *)
 | StackCase2 (shape limit d cls reached depth : Z) (repeat_same : bool)
 (* a non-terminating program interrupted once from another goroutine: Run must unwind with
@@ -48,7 +49,10 @@ Definition halt_out (o : outcome) : bool := match o with OThrew VHalt => true | 
 
 Definition frames (shape : Z) (d : nat) : list bool :=    (* true = script frame *)
   if shape =? 1 then repeat true (pred d) ++ [false]
-  else true :: concat (repeat [false; true; true] d).
+  else if shape =? 2 then true :: concat (repeat [false; true; true] d)
+  (* shapes 3 and 4: f, then the built-in (indirect eval / a host function that calls Run) and the global scope it
+     enters, d times, then the innermost f: global scopes entered mid-stack count like every other frame *)
+  else concat (repeat [true; false; false] d) ++ [true].
 Definition count_true (l : list bool) : Z := Z.of_nat (length (filter (fun b => b) l)).
 
 Definition verdict (c : case) : Z * Z :=
